@@ -507,3 +507,46 @@ Proof.
     apply index_pairs_nth in H1. rewrite Nat.sub_0_r in H1. cbn [fst snd].
     rewrite (nth_error_nth _ _ _ H1). reflexivity.
 Qed.
+
+(* ------------------------------------------------------------------ *)
+(* Part 5: positions of the matrix                                     *)
+Lemma index_pairs_fst : forall {X} (l : list X) k, map fst (index_pairs k l) = seq k (length l).
+Proof. induction l as [| a r IH]; intros k; [reflexivity |]. simpl. now rewrite IH. Qed.
+
+Lemma NoDup_map_filter : forall {A B} (f : A -> B) (p : A -> bool) l,
+  NoDup (map f l) -> NoDup (map f (filter p l)).
+Proof.
+  induction l as [| a r IH]; intros H; [constructor |].
+  simpl in H. inversion H as [| x xs Hnot Hnd]; subst. simpl.
+  destruct (p a); [| now apply IH]. simpl. constructor; [| now apply IH].
+  intro Hin. apply Hnot. apply in_map_iff in Hin. destruct Hin as [y [E Hy]].
+  apply filter_In in Hy. apply in_map_iff. exists y. tauto.
+Qed.
+
+(* no position of the matrix is listed twice: within a row the columns are pairwise
+   different, within a column the rows are (no hypothesis on the mesh) *)
+Lemma row_cols_NoDup : forall pos m i e, nth_error (cells m) i = Some e ->
+  NoDup (map (fun t => snd (fst t)) (row_of i (incidence pos m))).
+Proof.
+  intros pos m i e H. rewrite (row_incidence pos m i e H), map_map. cbn [fst snd].
+  apply (NoDup_map_filter fst). rewrite index_pairs_fst. apply seq_NoDup.
+Qed.
+
+Lemma col_rows_NoDup : forall pos m j f, nth_error (facets m) j = Some f ->
+  NoDup (map (fun t => fst (fst t)) (col_of j (incidence pos m))).
+Proof.
+  intros pos m j f H. rewrite (col_incidence pos m j f H), map_map. cbn [fst snd].
+  apply (NoDup_map_filter fst). rewrite index_pairs_fst. apply seq_NoDup.
+Qed.
+
+(* every triple of the matrix lies in some row i < #cells and some column j < #facets *)
+Lemma incidence_in_range : forall pos m t, In t (incidence pos m) ->
+  fst (fst t) < length (cells m) /\ snd (fst t) < length (facets m).
+Proof.
+  intros pos m t H. unfold incidence in H.
+  apply in_flat_map in H. destruct H as [[i e] [Hi H]].
+  apply in_flat_map in H. destruct H as [[j f] [Hj H]].
+  cbn [fst snd] in H. destruct (rel e f); [| destruct H]. destruct H as [<- | []]. cbn [fst snd].
+  apply index_pairs_nth in Hi. apply index_pairs_nth in Hj. rewrite Nat.sub_0_r in *.
+  split; apply nth_error_Some; congruence.
+Qed.
